@@ -53,7 +53,7 @@ func genC20Leaf(t *rapid.T) c20Leaf {
 
 func genC20Op(t *rapid.T) c20Op {
 	return c20Op{Chain: rapid.SampledFrom([]int{0, 0, 0, 1}).Draw(t, "chain"), Tree: rapid.IntRange(0, 2).Draw(t, "tree"), Leaf: rapid.IntRange(0, 3).Draw(t, "leaf"),
-		Mode:      rapid.SampledFrom([]string{"valid", "valid", "valid", "valid", "valid", "valid", "badproof", "otherproof", "undersigned"}).Draw(t, "mode"),
+		Mode:      rapid.SampledFrom([]string{"valid", "valid", "valid", "valid", "valid", "valid", "badproof", "otherproof", "undersigned", "forgedroot"}).Draw(t, "mode"),
 		NextBlock: rapid.Bool().Draw(t, "nextblock")}
 }
 
@@ -205,8 +205,19 @@ func runC20Ont(ctx *ev.Ctx, c c20Case) {
 		if op.Mode == "undersigned" {
 			signers = []int{2}
 		}
+		if op.Mode == "forgedroot" {
+			// a message of this height with ANOTHER state root (one transfer with a fresh id), signed by
+			// one tracked peer only (or nobody), and a proof that is valid against that forged root
+			fv := c20Value(c20Leaf{XID: leaf.XID, Variant: 9, To: leaf.To}, op.Chain, c.Ccmc)
+			root, proof = merkleRootAndPath([][]byte{fv}, 0)
+			signers = []int{2}
+			if op.Leaf%2 == 1 {
+				signers = nil
+			}
+			proofOK = false // not provable against any authenticated root
+		}
 		raw := ontMsgBytes(ontMsg{Height: height, Keys: signers, Sigs: okSigs(signers)}, root)
-		gateOK := stored[[2]int{op.Chain, ti}] || op.Mode != "undersigned"
+		gateOK := stored[[2]int{op.Chain, ti}] || (op.Mode != "undersigned" && op.Mode != "forgedroot")
 		key := dk{op.Chain, leaf.XID}
 		want := gateOK && proofOK && !done[key]
 		class := op.Mode
